@@ -54,7 +54,7 @@ type treeDecl struct {
 // gives nodes an alias; optMask marks nodes (bit 0 = parser) subcommands-optional;
 // clash = 0 none, else node (clash-1)/2 uses its parent's (even) or grandparent's (odd) flag letter.
 // sameName: 0 none, else the last node takes the name of node 0 when they are not siblings.
-func buildTree(par []int, aliasMask, optMask, clash int, sameName bool, exec bool, reqNode, posNode int) *treeDecl {
+func buildTree(par []int, aliasMask, optMask, clash int, sameName bool, exec bool, reqNode, posNode int, hiddenMask int, lateGroup bool) *treeDecl {
 	n := len(par)
 	letters := "abcd"
 	top := &decl.Cmd{Name: "app", Opts: []*decl.Opt{{Field: "P", Short: "p", Long: "pflag", Type: decl.TBools}}}
@@ -97,6 +97,7 @@ func buildTree(par []int, aliasMask, optMask, clash int, sameName bool, exec boo
 			c.Aliases = []string{"x" + string(letters[i])}
 		}
 		c.SubOptional = optMask&(1<<uint(i+1)) != 0
+		c.Hidden = hiddenMask&(1<<uint(i)) != 0 // a hidden command is selected, scoped and required like any other
 		cmds[i] = c
 		if par[i] < 0 {
 			top.Cmds = append(top.Cmds, c)
@@ -128,6 +129,11 @@ func buildTree(par []int, aliasMask, optMask, clash int, sameName bool, exec boo
 			return nil // the mark only means something on inner nodes
 		}
 	}
+	if lateGroup {
+		// the parser's own flag lives in a group (with the API build it is added after the commands and after some use)
+		top.Groups = []*decl.Group{{Field: "PG", Name: "Parser Group", Opts: top.Opts}}
+		top.Opts = nil
+	}
 	d := (&decl.Decl{Top: top}).Finish()
 	td := &treeDecl{d: d, cmds: cmds}
 	seen := map[string]bool{}
@@ -154,7 +160,7 @@ func buildTree(par []int, aliasMask, optMask, clash int, sameName bool, exec boo
 }
 
 func init() {
-	shapes := treeShapes(4)
+	shapes := append(treeShapes(4), []int{-1, 0, 1, 2}) // plus the one chain of depth 4
 	cache := map[string]*treeDecl{}
 	buildX = func(c *explore.Ctx, exec bool, extras bool) (*treeDecl, string, bool) {
 		si := c.Choose(len(shapes))
@@ -173,18 +179,19 @@ func init() {
 		om := c.Deviate(1 << uint(n+1))
 		cl := c.Deviate(1 + 2*n)
 		sn := c.Deviate(2) == 1
+		hm := c.Deviate(1 << uint(n))
 		rq, ps := 0, 0
 		if extras {
 			rq = c.Choose(n + 1)
 			ps = c.Choose(n + 1)
 		}
-		key := fmt.Sprintf("s%d/a%d/o%d/c%d/n%v/x%v/r%d/p%d", si, am, om, cl, sn, exec, rq, ps)
+		key := fmt.Sprintf("s%d/a%d/o%d/c%d/n%v/x%v/r%d/p%d/h%d", si, am, om, cl, sn, exec, rq, ps, hm)
 		td, ok := cache[key]
 		if !ok {
 			if len(cache) > 200 {
 				cache = map[string]*treeDecl{}
 			}
-			td = buildTree(par, am, om, cl, sn, exec, rq, ps)
+			td = buildTree(par, am, om, cl, sn, exec, rq, ps, hm, c08LateGroup)
 			cache[key] = td
 		}
 		return td, key, td != nil
@@ -193,8 +200,12 @@ func init() {
 	c08build = build
 
 	body := func(c *explore.Ctx) {
-		mode := c.Choose(3) // 0 struct tags, 1 API, 2 API with executable (Commander) commands
+		mode := c.Choose(4) // 0 struct tags, 1 API, 2 API with executable (Commander) commands, 3 API with the parser's flag in a group added late
+		c08LateGroup = mode == 3
 		td, key, ok := build(c, mode == 2)
+		if mode == 3 {
+			key += "/late"
+		}
 		api := mode != 0
 		if !ok {
 			c.Skip()
@@ -219,9 +230,25 @@ func init() {
 		}
 		recordStates(c, key, res, nil)
 		var b *decl.Built
-		if api {
+		switch {
+		case mode == 3:
+			b = td.d.BuildAPIWith(func(hb *decl.Built) {
+				// use the half-built parser: select every command once
+				for _, cm := range td.cmds {
+					var path []string
+					for x := cm; x != nil && x.Parent != nil; x = x.Parent {
+						path = append([]string{x.Name}, path...)
+					}
+					hb.Parser.ParseArgs(path)
+				}
+				for _, fc := range hb.Cmds {
+					fc.Active = nil // the program resets every selection before the real parse
+				}
+				rezero(hb)
+			})
+		case api:
 			b = td.d.BuildAPI()
-		} else {
+		default:
 			b = td.d.BuildTags()
 		}
 		if b.Err != nil {
@@ -277,9 +304,9 @@ func init() {
 			}
 			return 1
 		},
-		Rule: "every command tree with <= 4 commands and depth <= 3 (all 32 parent arrays), one counter flag per node; deviations from the plain tree (bounded: 1 quick / 2 thorough): aliases on <= 2 nodes, " +
-			"subcommands-optional on any subset of inner nodes incl. the parser, one node's flag letter clashing with its parent's or grandparent's, a deeper command reusing a top-level command's name; " +
-			"x {struct tags, API, API with executable commands} x every sequence of <= 3 (quick) / <= 4 (thorough) tokens over all names, aliases, every node's flag, one long flag and an unknown word; oracle = CLM active chain, scoping (which counter was incremented), " +
+		Rule: "every command tree with <= 4 commands and depth <= 3 (all 32 parent arrays) plus the chain of depth 4, one counter flag per node; deviations from the plain tree (bounded: 1 quick / 2 thorough): aliases on <= 2 nodes, " +
+			"subcommands-optional on any subset of inner nodes incl. the parser, one node's flag letter clashing with its parent's or grandparent's, a deeper command reusing a top-level command's name, any subset of commands hidden; " +
+			"x {struct tags, API, API with executable commands, API where the parser's flag sits in a group that is added after the commands and after a parse that selected each of them} x every sequence of <= 3 (quick) / <= 4 (thorough) tokens over all names, aliases, every node's flag, one long flag and an unknown word; oracle = CLM active chain, scoping (which counter was incremented), " +
 			"remaining arguments and ErrCommandRequired / ErrUnknownCommand",
 		Assumptions:  []string{"deviation-bounded over declaration features, exhaustive over trees and token sequences"},
 		RequiredHits: []string{"model-clean", "chain-depth>=2", "command-fault", "other-fault"},
@@ -287,6 +314,8 @@ func init() {
 		BudgetS:      [2]int{100, 1500},
 	})
 }
+
+var c08LateGroup bool
 
 var c08build func(c *explore.Ctx, exec bool) (*treeDecl, string, bool)
 var buildX func(c *explore.Ctx, exec bool, extras bool) (*treeDecl, string, bool)
